@@ -4,6 +4,7 @@ import (
 	"fmt"
 	"io"
 
+	"github.com/ulikunitz/xz"
 	"github.com/ulikunitz/xz/lzma"
 
 	"verif/sim"
@@ -66,6 +67,17 @@ type RResult struct {
 }
 
 func openReader(format string, src io.Reader, rdict int, single bool) (io.Reader, error) {
+	if rdict == 0 && !single {
+		// all defaults: the package-level constructors
+		switch format {
+		case "xz":
+			return xz.NewReader(src)
+		case "lzma":
+			return lzma.NewReader(src)
+		case "lzma2":
+			return lzma.NewReader2(src)
+		}
+	}
 	switch format {
 	case "xz":
 		return xzReaderCfg(rdict, single).NewReader(src)
